@@ -146,7 +146,7 @@ def check(P, rep):
             rep.check(ok, 'C07.G', '%s::%s:%s:%s' % (cn, en, e.kind, fmt(subj)),
                       'debit/transfer/burn of parameter %s is must-guarded by its require_auth (or an allowance spend under the spender\'s auth)' % fmt(subj),
                       esite(g, e), e.describe()[:200], w)
-    rep.floor('generic sweep subject sinks', swept, 8)
+    rep.floor('generic sweep subject sinks', swept, 6)
     rep.count('table_instances', n[0])
 
 
